@@ -82,6 +82,10 @@ CAUSES["C06"].append((("compile/types/param_two_sites", "compile/types/recursive
                       "double literal (`scale(0.5)`) is then ambiguous in C++ and the sketch does not compile"))
 
 
+CAUSES["C06"].append((("compile/feature/fn_two_types_forward",), "a call to a helper defined further down the file is typed with int parameters whatever is passed (a str argument does not compile)"))
+CAUSES["C06"].append((("compile/feature/fn_param_reassigned_two_types", "compile/feature/fn_two_types_toplevel"), "a helper instantiated for two argument types: the second variant does not compile (ambiguous or mistyped overload)"))
+
+
 CAUSES["C09"] = [
     (("mem/comprehension", "mem/local_list", "mem/list_in_function", "mem/reassign_literal"),
      "a list created in the main-loop body or in a function (literal, comprehension, re-assignment) is a fresh new[] on every pass and is never deleted: the heap grows although the python program's live data is constant"),
